@@ -22,6 +22,7 @@
  ******************************************************************************/
 
 #include <SQuIDS/SUNalg.h>
+#include <SQuIDS/detail/VerifHooks.h>
 
 #include <algorithm>
 #include <ostream>
@@ -499,10 +500,12 @@ SU_vector::GetEigenSystem(bool order) const{
           //The closed form divides by quantities which vanish for diagonal,
           //degenerate and otherwise structured matrices, so only keep its
           //result if it really is a decomposition of this matrix.
+          SQUIDS_VERIF_EVENT(EV_EIGEN_SOLVER,0,dim);
           if(valid_eigensystem(GetGSLMatrix().get(),eigenvalues,eigenvectors))
             break;
           //otherwise fall through to the general solver
     default:
+      SQUIDS_VERIF_EVENT(EV_EIGEN_SOLVER,1,dim);
       auto matrix=(*this).GetGSLMatrix();
       gsl_eigen_hermv_workspace * ws = gsl_eigen_hermv_alloc(dim);
       gsl_eigen_hermv(matrix.get(),eigenvalues,eigenvectors,ws);
